@@ -41,6 +41,26 @@ static void build(Problem& P, const Config& cf) {
 static uint64_t fnv(const void* p, size_t n, uint64_t h = 1469598103934665603ULL) { const unsigned char* c = (const unsigned char*)p; for (size_t i = 0; i < n; i++) { h ^= c[i]; h *= 1099511628211ULL; } return h; }
 
 static Problem* g_P;
+#ifdef C12_MEM
+// memory-access variant: the protocol variable `state` of every worker's descent_trial is a scheduling point of its own
+static int watch_cb(const void* a) { int n = ms_nthreads_created(); for (int id = 1; id <= n; id++) { descent_trial* t = (descent_trial*)ms_thread_arg(id); if (t && a == (const void*)&t->state) return 1; } return 0; }
+static const char* describe_cb(const void* a) {
+  static char buf[48]; int n = ms_nthreads_created();
+  for (int id = 1; id <= n; id++) { descent_trial* t = (descent_trial*)ms_thread_arg(id); if (!t) continue;
+    const char* p = (const char*)a; const char* b = (const char*)t;
+    if (p >= b && p < b + sizeof(descent_trial)) {
+      size_t off = p - b; const char* f = "?";
+#define FLD(name) if (off == offsetof(descent_trial, name)) f = #name;
+      FLD(state) FLD(alpha) FLD(residual) FLD(nH1) FLD(H1) FLD(x_c) FLD(x) FLD(x_F) FLD(F) FLD(nF) FLD(id) FLD(mutex) FLD(cv) FLD(AtA_F) FLD(Atb_F) FLD(c)
+#undef FLD
+      snprintf(buf, sizeof buf, "descent_trial[%d].%s", id - 1, f); return buf; }
+    if (t->x_c && p >= (const char*)t->x_c->x && p < (const char*)t->x_c->x + 8 * t->x_c->nrow) { snprintf(buf, sizeof buf, "descent_trial[%d].x_c->x[]", id - 1); return buf; }
+    if (t->H1 && p >= (const char*)t->H1 && p < (const char*)t->H1 + sizeof(long) * t->nF) { snprintf(buf, sizeof buf, "descent_trial[%d].H1[]", id - 1); return buf; }
+  }
+  if (g_P && (const char*)a >= (const char*)g_P->x->x && (const char*)a < (const char*)g_P->x->x + 8 * g_P->x->nrow) return "x[] (the solution vector)";
+  return "other";
+}
+#endif
 static uint64_t state_cb(void) {   // the data the protocol branches on, read while exactly one thread runs
   uint64_t h = 7;
   int n = ms_nthreads_created();
@@ -67,6 +87,9 @@ static Exec execute(const Config& cf, const std::vector<int>& prefix) {
     if (!freopen(errpath.c_str(), "w", stderr)) _exit(8);
     if (cf.goto_env) { setenv("GOTO_NUM_THREADS", std::to_string(cf.W).c_str(), 1); setenv("OMP_NUM_THREADS", std::to_string(cf.W + 1).c_str(), 1); } else { setenv("OMP_NUM_THREADS", std::to_string(cf.W).c_str(), 1); unsetenv("GOTO_NUM_THREADS"); } setenv("MS_SPURIOUS", std::to_string(cf.spurious).c_str(), 1);
     Problem P; build(P, cf); g_P = &P;
+#ifdef C12_MEM
+    ms_mem_enable(watch_cb, describe_cb);
+#endif
     ms_begin(prefix.data(), prefix.size(), fd[1], state_cb, 20000);
     int feasible = walk_descents(P.A, P.b, P.x, P.xF, P.F.data(), &P.nF, P.H1.data(), &P.nH1, &P.residual, &P.residual_calcs, 0, &P.c);
     ms_end(0);
@@ -110,13 +133,15 @@ static void explore(const Config& cf, uint64_t max_exec) {
   { int feasible; memcpy(&feasible, R.out.data(), sizeof feasible); H->cls(std::string("reference|") + VN[cf.variant] + (feasible ? "|feasible" : "|infeasible"));
     if ((cf.variant == 2) == (feasible != 0)) H->violation("harness:variant-did-not-produce-the-intended-selection", ck); }
   std::unordered_set<uint64_t> visited; std::deque<std::vector<int>> work; work.push_back({});
-  uint64_t execs = 0, transitions = 0, deadlocks = 0; std::set<std::string> outcomes;
+  uint64_t execs = 0, transitions = 0, deadlocks = 0, accesses = 0; std::set<std::string> outcomes;
   size_t maxpre = 0;
   while (!work.empty()) {
     if (execs >= max_exec) { H->count("cap_executions_hit"); break; }
     std::vector<int> prefix = work.front(); work.pop_front();
     Exec e = execute(cf, prefix); execs++;
     std::string where = vf::fmt("[%s] choices=%s schedule=%s", ck.c_str(), choices_str(e).c_str(), sched_str(e).c_str());
+    if (e.r.nraces > 0) { static const char* RK[] = {"", "write-write", "write-then-read", "read-then-write"}; H->violation(std::string("data-race:") + RK[e.r.race_kind] + ":" + e.r.race_what, where + vf::fmt(" threads T%d and T%d, unordered by happens-before (%d racing pairs in this execution)", e.r.race_t1, e.r.race_t2, e.r.nraces)); }
+    accesses += e.r.naccesses;
     if (e.r.outcome == MS_DEADLOCK) { deadlocks++; H->violation("deadlock:" + std::string(e.r.unfinished_mask ? "lost-wake-up-or-wait-forever" : "main"), where + vf::fmt(" unfinished-mask=%x", e.r.unfinished_mask)); }
     else if (e.r.outcome == MS_LIVELOCK) H->violation("livelock:step-horizon", where);
     else if (e.r.outcome == MS_DIVERGED) { H->violation("harness:replay-diverged", where); continue; }
@@ -137,6 +162,7 @@ static void explore(const Config& cf, uint64_t max_exec) {
   }
   H->count("states", visited.size()); H->count("transitions", transitions); H->count("traces_validated_against_impl", execs); H->count("evaluations", execs);
   H->count("deadlock_executions", deadlocks);
+  if (accesses) H->count("memory_accesses_checked_for_races", accesses);
   H->note(vf::fmt("%s: states=%zu transitions=%llu executions=%llu distinct_outcomes=%zu deadlocks=%llu longest_prefix=%zu", ck.c_str(), visited.size(), (unsigned long long)transitions, (unsigned long long)execs, outcomes.size(), (unsigned long long)deadlocks, maxpre));
   H->cls(ck);
   if (outcomes.size() > 1) H->violation("more-than-one-outcome-across-schedules", ck);
@@ -146,10 +172,10 @@ int main(int argc, char** argv) {
   vf::Harness h("C12", argc, argv);
   H = &h;
   h.meta("level", "model_checking");
-  h.meta("rule", "stateless exploration with state matching of the real walk_descents + evaluate_descent under a cooperative scheduler (every lock, unlock, cond_wait, broadcast, create, join, exit and thread start is a scheduling point; choice = which enabled thread performs its pending operation); canonical state = per-thread (status, pending operation, call site, join target, joined flag), mutex owner, condition wait set, plus the protocol data read from the descent_trial structures (state, alpha, residual, nH1, H1, x_c) and the coordinator's x / nH1; one forked execution per transition of the reachable state graph; configurations: workers x trial steps x {first improving step at alpha=1, in the middle, never}, plus configurations in which one spurious return from cond_wait is injected at every possible point, and configurations whose worker count comes from GOTO_NUM_THREADS; thorough adds four workers; oracle on every complete execution: no deadlock / livelock, all threads joined once, outputs (feasible, x[F], H1, nH1, residual) bit-identical to the one-worker non-preemptive reference, ASan clean");
+  h.meta("rule", "stateless exploration with state matching of the real walk_descents + evaluate_descent under a cooperative scheduler (every lock, unlock, cond_wait, broadcast, create, join, exit and thread start is a scheduling point; choice = which enabled thread performs its pending operation); canonical state = per-thread (status, pending operation, call site, join target, joined flag), mutex owner, condition wait set, plus the protocol data read from the descent_trial structures (state, alpha, residual, nH1, H1, x_c) and the coordinator's x / nH1; one forked execution per transition of the reachable state graph; configurations: workers x trial steps x {first improving step at alpha=1, in the middle, never}, plus configurations in which one spurious return from cond_wait is injected at every possible point, and configurations whose worker count comes from GOTO_NUM_THREADS; thorough adds four workers; the same exploration is run a second time on a build in which every load and store of cholesky_solve.c calls the scheduler (compiled with -fsanitize=thread, linked against engine/sched/ms_mem.c instead of the TSan runtime): accesses to the protocol variable descent_trial.state are scheduling points of their own, and every access is checked against a vector-clock happens-before relation (create/start, exit/join, unlock/lock), so a data race or a result read before its worker finished is reported on every explored schedule; oracle on every complete execution: no deadlock / livelock, all threads joined once, outputs (feasible, x[F], H1, nH1, residual) bit-identical to the one-worker non-preemptive reference, ASan clean");
   h.meta("assumption", "sequentially consistent interleavings at synchronisation operations; data-race freedom between them is checked separately by the free-running TSan pass (C12tsan spaces)");
   h.meta("assumption", "cholmod_common is shared by the workers inside an uninstrumented library: races inside CHOLMOD are outside this check");
-  h.meta("extra_binaries", "C12tsan");
+  h.meta("extra_binaries", "C12tsan,C12mem");
   h.meta("deadline_quick", "900"); h.meta("deadline_thorough", "3000");
   h.meta("require_states", "500");
   h.timeout_s = 2400;
@@ -157,7 +183,11 @@ int main(int argc, char** argv) {
   std::vector<Config> cfs;
   std::vector<std::pair<int, int>> wn = {{1, 2}, {1, 3}, {2, 2}, {2, 3}, {2, 4}, {3, 2}, {3, 3}};
   if (h.thorough) { wn.push_back({2, 5}); wn.push_back({2, 6}); wn.push_back({3, 4}); wn.push_back({3, 6}); wn.push_back({3, 7}); wn.push_back({4, 2}); wn.push_back({4, 4}); wn.push_back({4, 5}); }
-  if (h.thorough) for (auto& p : wn) if (p.first == 4) for (int v = (p.second == 5 ? 1 : 0); v < 3; v++) cfs.push_back({p.first, p.second, v, 0, 0});   // the largest graphs first (they bound the wall time)
+  #ifdef C12_MEM
+  if (h.thorough) for (auto& p : wn) if (p.first == 4) for (int v = (p.second == 5 ? 1 : 0); v < 3; v++) cfs.push_back({p.first, p.second, v, 0, 0});
+#else
+  if (h.thorough) for (int v = 0; v < 3; v++) cfs.push_back({4, 2, v, 0, 0});   // the larger four-worker graphs are explored by the memory-access variant (bin/C12mem)
+#endif   // the largest graphs first (they bound the wall time)
   for (auto& p : wn) if (p.first != 4) for (int v = 0; v < 3; v++) cfs.push_back({p.first, p.second, v, 0, 0});
   cfs.push_back({2, 3, 1, 0, 1}); if (h.thorough) cfs.push_back({3, 2, 2, 0, 1});   // worker count taken from GOTO_NUM_THREADS
   // POSIX allows cond_wait to return spuriously: the same protocol with one such return injected at every possible place
